@@ -15,6 +15,57 @@ use serde_json::json;
 
 pub struct C01;
 
+/// the optimiser-bait profile was written for C02 (its oracle is the -O0 run): a bait program can
+/// be judged against the reference interpreter unless it loads registers in inline assembly
+/// (not modelled) or sits in the recorded family of relational comparisons with 0
+pub fn bait_not_judgeable(p: &Program) -> Option<&'static str> {
+    fn has_reg_asm(s: &Stmt) -> bool {
+        match s {
+            Stmt::Asm(t, _) => !t.starts_with("NOP"),
+            Stmt::If(_, a, b) => has_reg_asm(a) || b.as_ref().map(|b| has_reg_asm(b)).unwrap_or(false),
+            Stmt::While(_, b) | Stmt::DoWhile(b, _) | Stmt::For(_, _, _, b) | Stmt::Labeled(_, b) => has_reg_asm(b),
+            Stmt::Block(v) => v.iter().any(has_reg_asm),
+            Stmt::Switch(_, c, d) => c.iter().any(|c| c.1.iter().any(has_reg_asm)) || d.as_ref().map(|d| d.iter().any(has_reg_asm)).unwrap_or(false),
+            _ => false,
+        }
+    }
+    fn rel_zero(e: &Expr) -> bool {
+        match e {
+            Expr::Bin(op, a, b) => {
+                (matches!(op, BinOp::Lt | BinOp::Le | BinOp::Gt | BinOp::Ge)
+                    && (matches!(**a, Expr::Num(0) | Expr::Hex(0)) || matches!(**b, Expr::Num(0) | Expr::Hex(0))))
+                    || rel_zero(a)
+                    || rel_zero(b)
+            }
+            Expr::Un(_, a) | Expr::Paren(a) => rel_zero(a),
+            Expr::Assign(_, r) | Expr::OpAssign(_, _, r) => rel_zero(r),
+            Expr::Cond(a, b, c) => rel_zero(a) || rel_zero(b) || rel_zero(c),
+            Expr::Comma(a, b) => rel_zero(a) || rel_zero(b),
+            _ => false,
+        }
+    }
+    fn stmt_rel_zero(s: &Stmt) -> bool {
+        match s {
+            Stmt::Expr(e) => rel_zero(e),
+            Stmt::If(c, a, b) => rel_zero(c) || stmt_rel_zero(a) || b.as_ref().map(|b| stmt_rel_zero(b)).unwrap_or(false),
+            Stmt::While(c, b) | Stmt::DoWhile(b, c) => rel_zero(c) || stmt_rel_zero(b),
+            Stmt::For(a, b, c, d) => [a, b, c].iter().any(|e| e.as_ref().map(rel_zero).unwrap_or(false)) || stmt_rel_zero(d),
+            Stmt::Labeled(_, b) => stmt_rel_zero(b),
+            Stmt::Block(v) => v.iter().any(stmt_rel_zero),
+            Stmt::Switch(e, c, d) => rel_zero(e) || c.iter().any(|c| c.1.iter().any(stmt_rel_zero)) || d.as_ref().map(|d| d.iter().any(stmt_rel_zero)).unwrap_or(false),
+            _ => false,
+        }
+    }
+    if p.funcs.iter().any(|f| f.body.iter().any(has_reg_asm)) {
+        return Some("bait program with register-loading asm (judged by C02 only)");
+    }
+    if p.funcs.iter().any(|f| f.body.iter().any(stmt_rel_zero)) {
+        return Some("bait program inside a recorded family (relational comparison with 0)");
+    }
+    None
+}
+
+
 pub const RAND_POOL: u64 = 1_200_000;
 pub const NVEC: u64 = 6;
 
@@ -147,50 +198,8 @@ impl Monitor for C01 {
             }
             "bait" => {
                 let p = crate::bait::bait_program(idx);
-                // inline assembly that loads registers is not modelled by the reference
-                fn has_reg_asm(s: &Stmt) -> bool {
-                    match s {
-                        Stmt::Asm(t, _) => !t.starts_with("NOP"),
-                        Stmt::If(_, a, b) => has_reg_asm(a) || b.as_ref().map(|b| has_reg_asm(b)).unwrap_or(false),
-                        Stmt::While(_, b) | Stmt::DoWhile(b, _) | Stmt::For(_, _, _, b) | Stmt::Labeled(_, b) => has_reg_asm(b),
-                        Stmt::Block(v) => v.iter().any(has_reg_asm),
-                        Stmt::Switch(_, c, d) => c.iter().any(|c| c.1.iter().any(has_reg_asm)) || d.as_ref().map(|d| d.iter().any(has_reg_asm)).unwrap_or(false),
-                        _ => false,
-                    }
-                }
-                if p.funcs.iter().any(|f| f.body.iter().any(has_reg_asm)) {
-                    return CaseResult::new("bait program with register-loading asm (judged by C02 only)", idx);
-                }
-                // relational comparison with the constant 0: recorded family unsigned_relational_zero
-                fn rel_zero(e: &Expr) -> bool {
-                    match e {
-                        Expr::Bin(op, a, b) => {
-                            (matches!(op, BinOp::Lt | BinOp::Le | BinOp::Gt | BinOp::Ge)
-                                && (matches!(**a, Expr::Num(0) | Expr::Hex(0)) || matches!(**b, Expr::Num(0) | Expr::Hex(0))))
-                                || rel_zero(a)
-                                || rel_zero(b)
-                        }
-                        Expr::Un(_, a) | Expr::Paren(a) => rel_zero(a),
-                        Expr::Assign(_, r) | Expr::OpAssign(_, _, r) => rel_zero(r),
-                        Expr::Cond(a, b, c) => rel_zero(a) || rel_zero(b) || rel_zero(c),
-                        Expr::Comma(a, b) => rel_zero(a) || rel_zero(b),
-                        _ => false,
-                    }
-                }
-                fn stmt_rel_zero(s: &Stmt) -> bool {
-                    match s {
-                        Stmt::Expr(e) => rel_zero(e),
-                        Stmt::If(c, a, b) => rel_zero(c) || stmt_rel_zero(a) || b.as_ref().map(|b| stmt_rel_zero(b)).unwrap_or(false),
-                        Stmt::While(c, b) | Stmt::DoWhile(b, c) => rel_zero(c) || stmt_rel_zero(b),
-                        Stmt::For(a, b, c, d) => [a, b, c].iter().any(|e| e.as_ref().map(rel_zero).unwrap_or(false)) || stmt_rel_zero(d),
-                        Stmt::Labeled(_, b) => stmt_rel_zero(b),
-                        Stmt::Block(v) => v.iter().any(stmt_rel_zero),
-                        Stmt::Switch(e, c, d) => rel_zero(e) || c.iter().any(|c| c.1.iter().any(stmt_rel_zero)) || d.as_ref().map(|d| d.iter().any(stmt_rel_zero)).unwrap_or(false),
-                        _ => false,
-                    }
-                }
-                if p.funcs.iter().any(|f| f.body.iter().any(stmt_rel_zero)) {
-                    return CaseResult::new("bait program inside a recorded family (relational comparison with 0)", idx);
+                if let Some(why) = bait_not_judgeable(&p) {
+                    return CaseResult::new(why, idx);
                 }
                 judge_program("C01", kind, idx, &p, "C01b", &[0, 1], None)
             }
